@@ -203,17 +203,23 @@ pub fn mega_sizes() -> &'static [usize] {
     }
 }
 pub fn mega_count() -> u64 {
-    (crate::scale::FAMILIES.len() * 3 * mega_sizes().len()) as u64
+    ((crate::scale::FAMILIES.len() + crate::gen::COUNT_KINDS.len()) * 3 * mega_sizes().len()) as u64
 }
 fn mega_case(k: u64) -> Case {
     let client = [Client::PeekNext, Client::LoadMulti, Client::LoadSingle][(k % 3) as usize].clone();
-    let nf = crate::scale::FAMILIES.len() as u64;
-    let fam = crate::scale::FAMILIES[((k / 3) % nf) as usize];
+    let nf = (crate::scale::FAMILIES.len() + crate::gen::COUNT_KINDS.len()) as u64;
+    let f = ((k / 3) % nf) as usize;
     let size = mega_sizes()[((k / 3 / nf) as usize) % mega_sizes().len()];
+    let text = if f < crate::scale::FAMILIES.len() {
+        crate::scale::render(crate::scale::FAMILIES[f], size)
+    } else {
+        // one kind of thing counted just past 2^16 (thorough: also past 2^18)
+        crate::gen::count_doc(crate::gen::COUNT_KINDS[f - crate::scale::FAMILIES.len()], if size > 1_000_000 { 263_000 } else { 66_000 })
+    };
     Case {
         prop: "C17".into(),
         gen: "L-family-mega".into(),
-        text: crate::scale::render(fam, size),
+        text,
         input: InputKind::Str,
         peeks: if client == Client::PeekNext { vec![0, 1, 0, 2] } else { vec![] },
         client,
